@@ -10,33 +10,52 @@ def buildOf (n : Bytes) : Bytes := b!"/VB/layers/" ++ n ++ b!"/build"
 structure Chain where
   names : List Bytes
   imports : List (List Bytes)     -- per layer: mountpoints below its build root
+  bases : List Bytes              -- per layer: name of its base layer ("" = none)
+  order : List Bytes := []        -- normalized order as the implementation reports it (umount -all)
 
 def getChain (j : Json) : Chain :=
   let ls := (getArr j "layers").map fun l => match l with
     | .arr a => a.toList.map fun x => match x with | .str s => fromHex s | _ => []
     | _ => []
-  if ls.isEmpty then { names := [b!"b0"], imports := [getBs j "targets"] }
-  else { names := layerNames.take ls.length, imports := ls }
+  if ls.isEmpty then { names := [b!"b0"], imports := [getBs j "targets"], bases := [[]] }
+  else
+    let names := if (getBs j "names").isEmpty then layerNames.take ls.length else getBs j "names"
+    -- a chain unless the case says otherwise: every layer sits on the one before it
+    let bases := if (getArr j "bases").isEmpty then [[]] ++ names.take (names.length - 1) else getBs j "bases"
+    { names := names, imports := ls, bases := bases, order := getBs (getObj j "impl") "order" }
+
+def idxOf (c : Chain) (n : Bytes) : Nat := c.names.idxOf n
 
 /-- mounts of layer i, in the order mountOne issues them: overlay (derived), then imports -/
 def layerTargets (c : Chain) (i : Nat) : List Bytes :=
   let n := c.names.getD i []
-  (if i > 0 then [buildOf n] else []) ++ (c.imports.getD i []).map fun t => buildOf n ++ t
+  (if !(c.bases.getD i []).isEmpty then [buildOf n] else []) ++ (c.imports.getD i []).map fun t => buildOf n ++ t
 
-def idxOf (c : Chain) (n : Bytes) : Nat := c.names.idxOf n
+/-- indices from the root base layer down to layer i -/
+def chainIdx (c : Chain) : Nat → Nat → List Nat
+  | 0, _ => []
+  | fuel + 1, i =>
+    let b := c.bases.getD i []
+    (if b.isEmpty then [] else chainIdx c fuel (idxOf c b)) ++ [i]
+
+/-- build roots of the layers whose base is `n` -/
+def kidsOf (c : Chain) (n : Bytes) : List Bytes :=
+  ((c.names.zip c.bases).filter fun nb => nb.2 == n).map fun nb => buildOf nb.1
 
 def actsOf (c : Chain) (cmd : String) : List Act :=
   match cmd.splitOn " " with
   | [verb, layer] =>
     let n := layer.toUTF8.toList.map (·.toNat)
     let i := idxOf c n
-    if verb == "mount" then mountChainActs ((List.range (i + 1)).map (layerTargets c))
-    else if verb == "chroot" then chrootChainActs ((List.range (i + 1)).map (layerTargets c))
-    else
-      let kids := if i + 1 < c.names.length then [buildOf (c.names.getD (i + 1) [])] else []
-      umountLayerActs (buildOf n) kids
+    let chain := chainIdx c (c.names.length + 1) i
+    if verb == "mount" then mountChainActs (chain.map (layerTargets c))
+    else if verb == "chroot" then chrootChainActs (chain.map (layerTargets c))
+    else umountLayerActs (buildOf n) (kidsOf c n)
   | [verb] =>
-    if verb == "mount" then mountChainActs [layerTargets c 0] else umountLayerActs (buildOf b!"b0") []
+    if verb == "mount" then mountChainActs [layerTargets c 0]
+    else if verb == "umountall" then
+      umountAllActs (c.order.reverse.map fun n => (buildOf n, kidsOf c n))
+    else umountLayerActs (buildOf b!"b0") []
   | _ => []
 
 def strB (b : Bytes) : String := toStringLossy b
@@ -65,8 +84,10 @@ def handle (op : String) (j : Json) : Option Json :=
       let r := solo acc.2 (actsOf c cmd)
       (acc.1 ++ [obj [("r", Json.str (if r.p0.failed then "err" else "ok")), ("kernel", jbs (canonK r.kernel))]], r.kernel))
       ([], s.kernel)
-    let model := obj (jState s ++ (if thenCmds.isEmpty then [] else [("then", Json.arr thenOut.toArray)]))
     let impl := getObj j "impl"
+    -- the visiting order of umount -all is taken from the implementation (echoed, not judged here)
+    let model := obj (jState s ++ (match getObj impl "order" with | .null => [] | o => [("order", o)]) ++
+      (if thenCmds.isEmpty then [] else [("then", Json.arr thenOut.toArray)]))
     let implK := getObj impl "kernel"
     let s01 := serial01 k0 a0 a1
     let s10 := serial10 k0 a0 a1
